@@ -18,6 +18,9 @@ REVIEWED = {
         "after the D6 repair extended_types maps each uuid to the id of its own registry item; ids of distinct items are "
         "distinct keys (0, id), at most 1024 items of 4 ints each were accepted before, so add_item cannot report "
         "DuplicateKey/TooManyItems/TooLongSnap (C10 rule R1 decides the registry agreement)",
+    'libtw2_snapshot::snap::Builder::add_item | panic-call | panic_2021! | 0':
+        "assert!(OFFSET_EXTENDED_TYPE_ID <= next_type_id): next_type_id starts at OFFSET_EXTENDED_TYPE_ID (Default) and Snap::recycle "
+        "only sets it to id + 1 for ids >= OFFSET_EXTENDED_TYPE_ID (repair f280909); add_item only increments it",
     # ---- demo (after D8)
     'libtw2_demo::format::TickMarker::new | panic-call | assert! | 0':
         "assert!(tick > prev): the high-level writer refuses tick <= last_tick before calling write_tick (decided by C15 rule "
